@@ -207,7 +207,7 @@ func (r *Reader) feed(src io.Reader) {
 					slice = append(leftover, slice...)
 					leftover = []byte{}
 				}
-				if (err == nil || len(slice) > 0) && r.pusher(slice) {
+				if r.pusher(slice) {
 					atomic.StoreInt32(&r.event, int32(EvtReadNew))
 				}
 			} else {
